@@ -334,3 +334,102 @@ Definition diagnose (t0 : Q) (scripts : list (list instr)) (plan : list pitem)
                     (trace : list observation) (results : list pres) :=
   let '(tr, rs) := model_run t0 scripts plan in
   (first_diff obs_eqb tr trace 0, first_diff pres_eqb rs results 0).
+
+(* ------------------------------------------------------------------------------------------------ *)
+(* Compact cases (additive; [instr] is unchanged): long streaks for the correspondence.  A code is a list of
+   [ritem]s -- single instructions and blocks repeated n times -- unrolled by [expand] before compilation, so
+   the semantics of a repeated block is the block written out n times (iterated yields).  The recorded trace
+   may be run-length encoded the same way ([titem]); [agree_long] takes the fuel (number of steps / of already
+   processed events yielded in a row) explicitly. *)
+Inductive ritem := RI (i : instr) | RRep (n : nat) (body : list instr).
+
+Fixpoint rep_app {A : Type} (n : nat) (block acc : list A) : list A :=
+  match n with O => acc | S m => block ++ rep_app m block acc end.
+
+Fixpoint expand (l : list ritem) : list instr :=
+  match l with
+  | [] => []
+  | RI i :: t => i :: expand t
+  | RRep n b :: t => rep_app n b (expand t)
+  end.
+
+Inductive titem := TO (o : observation) | TRep (n : nat) (block : list observation).
+
+Fixpoint expand_tr (l : list titem) : list observation :=
+  match l with
+  | [] => []
+  | TO o :: t => o :: expand_tr t
+  | TRep n b :: t => rep_app n b (expand_tr t)
+  end.
+
+Definition model_run_long (fuel : nat) (t0 : Q) (scripts : list (list ritem)) (plan : list pitem)
+  : list observation * list pres :=
+  let '(s, rs) := run_plan_sel true fuel (map (fun c => compile (expand c)) scripts) plan (init_state t0) in
+  (rev (obs s), rs).
+
+Definition agree_long (fuel : nat) (t0 : Q) (scripts : list (list ritem)) (plan : list pitem)
+                      (trace : list titem) (results : list pres) : bool :=
+  let '(tr, rs) := model_run_long fuel t0 scripts plan in
+  all2 obs_eqb tr (expand_tr trace) && all2 pres_eqb rs results.
+
+Definition diagnose_long (fuel : nat) (t0 : Q) (scripts : list (list ritem)) (plan : list pitem)
+                         (trace : list titem) (results : list pres) :=
+  let '(tr, rs) := model_run_long fuel t0 scripts plan in
+  (first_diff obs_eqb tr (expand_tr trace) 0, first_diff pres_eqb rs results 0, List.length tr).
+
+(* Digest of a trace, for long traces that would be too large as a literal term: a rolling hash of a structural
+   encoding of every observation (times after Qred), mirrored by props/kernel_common.py [trace_digest].
+   [agree_digest] compares the number of entries, the digest of the WHOLE trace and, literally, its last entries. *)
+Definition HP : Z := 2305843009213693951%Z.     (* 2^61 - 1 *)
+Definition HB : Z := 1000003%Z.
+Definition hmix (h x : Z) : Z := ((h * HB + x + 1) mod HP)%Z.
+
+Definition enc_q (q : Q) (h : Z) : Z := let r := Qred q in hmix (hmix h (Qnum r)) (Zpos (Qden r)).
+Definition enc_cls (c : ecls) (h : Z) : Z :=
+  match c with
+  | EInterrupt => hmix h 1 | ERuntime => hmix h 2 | EValue => hmix h 3 | EAttribute => hmix h 4
+  | EType => hmix h 5 | EAssert => hmix h 6 | EUser t => hmix (hmix h 7) t
+  end.
+
+Fixpoint enc_val (v : val) (h : Z) : Z :=
+  match v with
+  | VNone => hmix h 1
+  | VInt z => hmix (hmix h 2) z
+  | VNum q => enc_q q (hmix h 3)
+  | VEv e => hmix (hmix h 4) (Z.of_nat e)
+  | VCond items =>
+      (fix go (l : list (evid * val)) (h : Z) : Z :=
+         match l with [] => hmix h 0 | (e, x) :: t => go t (enc_val x (hmix h (Z.of_nat e))) end) items (hmix h 5)
+  | VList l =>
+      (fix go (l : list val) (h : Z) : Z :=
+         match l with [] => hmix h 0 | x :: t => go t (enc_val x h) end) l (hmix h 6)
+  | VExn c args =>
+      (fix go (l : list val) (h : Z) : Z :=
+         match l with [] => hmix h 0 | x :: t => go t (enc_val x h) end) args (enc_cls c (hmix h 7))
+  end.
+
+Definition enc_outcome (o : option outcome) (h : Z) : Z :=
+  match o with
+  | None => hmix h 0
+  | Some (Ok v) => enc_val v (hmix h 1)
+  | Some (Fail x) => enc_val (exn_val x) (hmix h 2)
+  end.
+
+Definition enc_obs (o : observation) (h : Z) : Z :=
+  match o with
+  | OStep e t => enc_q t (hmix (hmix h 1) (Z.of_nat e))
+  | OProbe n e t oc => enc_outcome oc (enc_q t (hmix (hmix (hmix h 2) (Z.of_nat n)) (Z.of_nat e)))
+  | OLog p t v => enc_val v (enc_q t (hmix (hmix h 3) (match p with None => 0 | Some q => Z.of_nat (S q) end)))
+  end.
+
+Definition trace_digest (tr : list observation) : Z := fold_left (fun h o => enc_obs o h) tr 7%Z.
+
+Definition agree_digest (fuel : nat) (t0 : Q) (scripts : list (list ritem)) (plan : list pitem)
+                        (len : nat) (digest : Z) (tail : list observation) (results : list pres) : bool :=
+  let '(tr, rs) := model_run_long fuel t0 scripts plan in
+  Nat.eqb (List.length tr) len && Z.eqb (trace_digest tr) digest &&
+  all2 obs_eqb (skipn (len - List.length tail) tr) tail && all2 pres_eqb rs results.
+
+Definition diagnose_digest (fuel : nat) (t0 : Q) (scripts : list (list ritem)) (plan : list pitem) (k : nat) :=
+  let '(tr, rs) := model_run_long fuel t0 scripts plan in
+  (List.length tr, trace_digest tr, skipn (List.length tr - k) tr, rs).
